@@ -8,7 +8,9 @@ from debian_inspector import unsign
 
 ID = 'C16'
 LEVEL = 'proof'
-THEOREMS = [('DebInspector.Thm.C16', ['Props.C16.result_is_part_of_input', 'Props.C16.unsigned_identity', 'Props.C16.removeSignature_cases', 'Props.C16.joinNl_take_infix'])]
+THEOREMS = [('DebInspector.Thm.C16', ['Props.C16.result_is_part_of_input', 'Props.C16.unsigned_identity', 'Props.C16.removeSignature_cases', 'Props.C16.joinNl_take_infix']),
+            ('DebInspector.Thm.C16W', ['Props.C16W.soundWK6', 'Props.C16W.wellformed_body', 'Props.C16W.matchAt_form0', 'Props.C16W.matchAt_form1',
+                                       'Props.C16W.armor_ok', 'Props.C16W.longestClear_eq', 'Props.C16W.afterSig_dead'])]
 TRUSTED = [
     'Lean 4.33.0 kernel',
     'reading of the property as Props.C16.holdsOn (a string, a contiguous part of the input, the input itself without an envelope) and holdsOnW (exactly the body for well-formed messages)',
@@ -20,12 +22,14 @@ ASSUMPTIONS = ['K6: header blocks RFC 4880 allows but that are not exactly one H
 RULE = ('well-formed messages (with / without Hash header, armor headers, 1-30 body lines incl. empty, dash-escaped and field-syntax lines, LF / CRLF, final newline or not; one in three preceded by blank lines and followed by white space of 0-5000 characters); '
         'malformed variants (damaged CRC / base64 / END line, missing blank line, nested blocks, garbage before / after, mixed terminators, body lines that look like armor lines); arbitrary texts. '
         'non-trivial = the text is enveloped')
-TECHNIQUE = ('Lean 4 theorems about the model (identity without an envelope; the result is the input or a joined prefix of lines after the BEGIN line) + executable spec on every observation + '
+TECHNIQUE = ('Lean 4 theorems about the model: for every text the result is a contiguous part of the input, the input itself without an envelope; Props.C16W.wellformed_body: for every well-formed message (K6 forms) it is exactly the signed body + executable spec on every observation + '
              'correspondence with the line-level model of the regex + measured running-time scaling')
 LEVEL_TEXT = ('Proved in Lean 4 about the line-level model of remove_signature, for every text (enveloped or not, well-formed or malformed, LF or CRLF): the result is a contiguous part of '
               'the input (result_is_part_of_input); without a clear-sign envelope it is the input itself (unsigned_identity); it is always the input or the clear-text lines of a successful '
-              'match, never None (removeSignature_cases). That, for well-formed messages, it is exactly the signed body is decided by the executable specification on every implementation observation and by correspondence of the model with the real regular '
-              'expression on well-formed, damaged and nested envelopes. The running-time clause is measured (six adversarial families, sizes 250-2000 lines, 20 s kill, growth factor per doubling <= 6), not proved.')
+              'match, never None (removeSignature_cases). Props.C16W.wellformed_body / soundWK6: for every well-formed clear-signed message - header block absent or exactly one Hash line (the hypothesis of finding K6), any number of body lines '
+              '(none starting with five dashes), any armor headers, base64 lines and checksum, LF or CRLF, with or without a final line ending, preceded by blank lines and followed by any white space - the model returns exactly the signed body, with the final carriage return for CRLF input: '
+              'the armor block matches at the BEGIN PGP SIGNATURE line (armor_ok), no later line can start a match (afterSig_dead), so the longest clear text ends right before it (longestClear_eq, matchAt_form0/1), and the text splits into exactly those lines. '
+              'The line-level model stands for the real regular expression and is tied to it by correspondence on well-formed, damaged and nested envelopes; the forms K6 excludes are decided by the executable specification. The running-time clause is measured (six adversarial families, sizes 250-2000 lines, 20 s kill, growth factor per doubling <= 6), not proved.')
 LEVEL_NOTE = ('Trusted: Lean kernel; axioms propext, Classical.choice, Quot.sound only; the model of the regular expression is tied by correspondence, not derived; the time clause is a measurement.')
 
 B64 = 'ABCDEFGHIJKLMNOPQRSTUVWXYZabcdefghijklmnopqrstuvwxyz0123456789+/'
